@@ -2,6 +2,7 @@ package main
 
 import (
 	"go/types"
+	"regexp"
 	"bytes"
 	"context"
 	"fmt"
@@ -43,6 +44,9 @@ var solvers = []solverSpec{
 		return []string{"cvc5", "--lang=smt2", "--produce-models", fmt.Sprintf("--tlimit=%d", s*1000), fmt.Sprintf("--seed=%d", seed), f}
 	}},
 }
+
+// real floating-point reasoning (not just the finiteness invariant of Float-typed inputs)
+var fpArith = regexp.MustCompile(`fp\.(add|sub|mul|div|roundToIntegral|to_sbv|to_ubv|sqrt|lt|gt|leq|geq|eq|neg|abs)|to_fp`)
 
 // smtText renders the query for an obligation: everything emitted before it, plus guard && !formula (extra = additional assertion).
 func smtText(fv *FuncVC, o *Obligation, extra string, forCVC5 bool) string {
@@ -310,7 +314,7 @@ func SolveAll(fvs []*FuncVC, want func(*Obligation) bool, budget, fpBudget, seed
 			}
 			txt, txtC := texts[i].txt, texts[i].txtC
 			_ = extra
-			fp := strings.Contains(txt, "fp.")
+			fp := fpArith.MatchString(txt)
 			b := budget
 			if fp {
 				b = fpBudget
